@@ -7,4 +7,5 @@
 //@include units/arrival_trace.rs
 //@include units/arrival_extrapolate.rs
 //@include units/arrival_cache.rs
+//@include units/arrival_prefix.rs
 fn main() {}
